@@ -115,6 +115,8 @@ structure Tx where
   failed : Bool := false
   /-- the argument of `Commit(fail)` -/
   commitFail : Bool := false
+  /-- ghost: the object a goroutine of the transaction has write-locked but not yet put into `writtenCaches` -/
+  pend : Option ObjId := none
   deriving Repr, Inhabited
 
 structure St where
@@ -269,10 +271,11 @@ def stepAt (s : St) (t : Tid) (c : Choice) : PC → St
     | none => s.setThr t { th with ok := false, pc := .xObjLock }
   | .xObjLock =>
     let th := s.thr t; let T := th.tx; let tx := s.txs T; let a := th.acc
-    (s.setObj th.existing { s.objs th.existing with writer := some T }).setThr t { th with pc := .xRegister }
+    ((s.setObj th.existing { s.objs th.existing with writer := some T }).setTx T { tx with pend := some th.existing }).setThr t
+      { th with pc := .xRegister }
   | .xRegister =>
     let th := s.thr t; let T := th.tx; let tx := s.txs T; let a := th.acc
-    (s.setTx T { tx with written := aput tx.written a.name th.existing }).setThr t { th with pc := .xTxUnlock }
+    (s.setTx T { tx with written := aput tx.written a.name th.existing, pend := none }).setThr t { th with pc := .xTxUnlock }
   | .xTxUnlock =>
     let th := s.thr t; let T := th.tx; let tx := s.txs T; let a := th.acc
     (s.setTx T { tx with mu := none }).setThr t { th with pc := .chkScrapped }
@@ -339,7 +342,7 @@ def stepAt (s : St) (t : Tid) (c : Choice) : PC → St
       { th with defers := .runlock th.use :: th.defers, pc := .nMgrUnlock }
   | .nObjLock =>
     let th := s.thr t; let T := th.tx; let tx := s.txs T; let a := th.acc
-    (s.setObj th.use { s.objs th.use with writer := some T }).setThr t
+    ((s.setObj th.use { s.objs th.use with writer := some T }).setTx T { tx with pend := some th.use }).setThr t
       { th with pc := if s.v.txFirst then
                         (if s.v.dropOld && (aget tx.written a.name).isSome then .nDropOld else .nRegister)
                       else .nTxLock }
@@ -365,7 +368,7 @@ def stepAt (s : St) (t : Tid) (c : Choice) : PC → St
     let s := match aget tx.written a.name with
       | some old => s.setObj old { s.objs old with orphan := true }
       | none => s
-    (s.setTx T { tx with written := aput tx.written a.name th.use }).setThr t { th with pc := .nTxUnlock }
+    (s.setTx T { tx with written := aput tx.written a.name th.use, pend := none }).setThr t { th with pc := .nTxUnlock }
   | .nTxUnlock =>
     let th := s.thr t; let T := th.tx; let tx := s.txs T; let a := th.acc
     ((s.setObj th.use { s.objs th.use with pub := true }).setTx T { tx with mu := none }).setThr t { th with pc := .nMgrUnlock }
@@ -411,11 +414,10 @@ def stepAt (s : St) (t : Tid) (c : Choice) : PC → St
     s.setThr t { th with remaining := tx.written, pc := .cEntry }
   | .cEntry =>
     let th := s.thr t; let T := th.tx; let tx := s.txs T; let a := th.acc
-    match th.remaining with
-    | [] => s.setThr t { th with pc := .cMgrUnlock }
-    | e :: _ =>
-      let k := c.pick % th.remaining.length
-      let (n, o) := th.remaining.getD k e
+    let k := c.pick % th.remaining.length
+    match th.remaining[k]? with
+    | none => s.setThr t { th with pc := .cMgrUnlock }     -- the list is empty: the loop is over
+    | some (n, o) =>
       let ob := s.objs o
       let bad := tx.failed || tx.commitFail
       let s := if bad then { s with map := upd s.map n none } else s
